@@ -10,8 +10,10 @@ RULE = ("the repository's BibTeX-derived corpus first (REGULAR_NAME_PARTS_PARSIN
         "it at every run, tag corpus_validated); bounded-exhaustive token sequences over {Aa, bb, 11, {Cc}, {dd}, {\\'E}x, {\\'e}x, "
         "\\'E, backslash, comma, space, ~, {, }} (quick: every sequence of length <= 4 + seeded sample of length 5; thorough: every "
         "sequence of length <= 5 + samples of lengths 6, 7); names of 1-9 words with every upper/lower/caseless pattern in the three "
-        "comma forms; non-ASCII letters; SplitNameParts / MergeNameParts on entries (valid, invalid, non-list values). "
-        "distinct = distinct (text, strict flag) or (entry, middleware); non-trivial = at least two words, or a brace/backslash/"
+        "comma forms; non-ASCII letters; SplitNameParts / MergeNameParts on entries (valid, invalid, non-list values); ONE "
+        "SplitNameParts object over 1-3 libraries of 1-4 blocks each (entries with valid names, entries with an invalid name, comments; "
+        "with and without in-place modification): every block must get what a fresh middleware gives it (stream library, oracle only). "
+        "distinct = distinct (text, strict flag) or (entry, middleware) or (libraries); non-trivial = at least two words, or a brace/backslash/"
         "comma, or an invalid name")
 TRUSTED = ["independent Python transcription of BibTeX's name algorithm (harness/props/names_common.py: spec_parse), validated at "
            "every run against the repository's corpus produced by real BibTeX"]
@@ -91,6 +93,82 @@ def generate(rng, tier):
             fields.append([k, v])
         mws = rng.choice([[2], [2], [2], [2, [3, 0]], [2, [3, 1]], [2, [3, 0], 2], [[3, 0]], [[3, 2]], [2, [3, 2]], [2, 2]])
         cases.append({"stream": "middleware", "input": {"level": "mw", "fields": fields, "mws": mws}})
+    cases.extend(library_cases(rng, 1500 if tier == "quick" else 15000, pn, pool))
+    return cases
+
+
+# one of each reported kind of invalid name, with words in front of the point where the error is noticed
+BAD_FIXED = ["Knuth, Donald,", "Aa Bb Cc}", "Aa, Bb, Cc, Dd", "Aa {Bb Cc", "Bb,", "von Aa, jr, Bb, Cc", "{Aa bb", "de la Aa} Bb", ","]
+
+
+def library_cases(rng, n, pn, pool):
+    """ONE SplitNameParts object over libraries of SEVERAL blocks, re-used for one to three transform() calls; some
+    entries hold an invalid name.  Every block must get what it would get from a fresh middleware: nothing of a name
+    (or of a failure) handled earlier may show in the blocks handled later."""
+    sample = rng.sample(pool, min(3000, len(pool)))
+    bad = [s for s in sample if nc.spec_parse(s) is None]
+    good = [s for s in sample if nc.spec_parse(s) is not None] + [s for s in rng.sample(pn, min(3000, len(pn))) if nc.spec_parse(s) is not None]
+    realistic = ["Ludwig van Beethoven", "Brinch Hansen, Per", "Leslie B. Lamport", "Charles Louis de la Vallee Poussin",
+                 "von Neumann, John", "Beeblebrox, IV, Zaphod", "Donald E. Knuth", "de la Fontaine, Jean", "Aa", ""]
+    cases = []
+    # smallest shapes first, systematically: an entry with one invalid name, then an entry with one valid name, as the
+    # next block of the same library or as the only block of the next transform() call
+    for b in BAD_FIXED:
+        for g in realistic[:8]:
+            e1 = {"type": "book", "key": "bad", "fields": [["author", [b]], ["title", "T"]]}
+            e2 = {"type": "book", "key": "good", "fields": [["author", [g]], ["title", "T"]]}
+            cases.append({"stream": "library", "input": {"level": "lib", "libs": [[e1, e2]], "inplace": True}})
+            cases.append({"stream": "library", "input": {"level": "lib", "libs": [[e1], [e2]], "inplace": True}})
+    for _ in range(n):
+        nlibs = rng.choice([1, 2, 2, 3])
+        sizes = [rng.randint(1 if nlibs > 1 else 2, 4) for _ in range(nlibs)]
+        total = sum(sizes)
+        # which entries are invalid: usually an early one, so that valid ones follow it
+        nbad = rng.choice([0, 1, 1, 1, 2, 3])
+        bad_at = set()
+        for _ in range(nbad):
+            bad_at.add(rng.randrange(max(1, total - 1)) if rng.random() < 0.8 else rng.randrange(total))
+        libs, pos = [], 0
+        for li, size in enumerate(sizes):
+            blocks = []
+            for bi in range(size):
+                if pos not in bad_at and rng.random() < 0.1:
+                    blocks.append({"comment": rng.choice(["Aa, bb,", "a comment", "{Aa"]), "explicit": rng.random() < 0.5})
+                    pos += 1
+                    continue
+                keys = ["author", "editor", "translator", "title", "year"]
+                rng.shuffle(keys)
+                keys = keys[:rng.randint(1, 3)]
+                if not any(k in ("author", "editor", "translator") for k in keys):
+                    keys[rng.randrange(len(keys))] = "author"
+                namekeys = [k for k in keys if k in ("author", "editor", "translator")]
+                badkey = rng.choice(namekeys) if pos in bad_at else None
+                fields = []
+                for k in keys:
+                    if k not in namekeys:
+                        fields.append([k, rng.choice(["T", "Aa, bb,", "{Aa bb", "1999", ""])])
+                        continue
+                    names = []
+                    for _ in range(rng.randint(0, 3)):
+                        r = rng.random()
+                        names.append(rng.choice(realistic) if r < 0.25 else rng.choice(good))
+                    if k == badkey:
+                        r = rng.random()
+                        names.insert(rng.randint(0, len(names)), rng.choice(BAD_FIXED) if r < 0.4 or not bad else rng.choice(bad))
+                    fields.append([k, names])
+                # keys are unique within one library; the same key may come back in the next library
+                blocks.append({"type": rng.choice(["book", "article"]), "key": "k%d" % (bi if rng.random() < 0.5 else pos), "fields": fields})
+                pos += 1
+            seen = set()
+            for j, b in enumerate(blocks):
+                if "key" in b:
+                    if b["key"] in seen:
+                        b["key"] = "k%d_%d" % (li, j)
+                    seen.add(b["key"])
+            libs.append(blocks)
+        if rng.random() < 0.15 and len(libs) > 1:
+            libs[-1] = json.loads(json.dumps(libs[0]))  # the very same library text once more
+        cases.append({"stream": "library", "input": {"level": "lib", "libs": libs, "inplace": rng.random() < 0.8}})
     return cases
 
 
@@ -237,6 +315,8 @@ def impl(case):
         rec["oracle"] = {"ok": ok, "detail": detail}
         rec["summary"] = repr(got if got is not None else exc)[:200]
         return rec
+    if inp["level"] == "lib":
+        return impl_lib(inp, implutil)
     # ---- middleware level
     from bibtexparser.library import Library
     from bibtexparser.model import Entry, Field
@@ -327,4 +407,118 @@ def impl(case):
             ok, detail = False, "a second run on %r gives a different result after the NameParts of the first result were edited in place" % (orig,)
     rec["oracle"] = {"ok": ok, "detail": detail}
     rec["summary"] = summary
+    return rec
+
+
+NAME_FIELDS = ("author", "editor", "translator")
+
+
+def check_lib_block(desc, blk, line, raw):
+    """direct statement of the property for ONE block of a library handled by SplitNameParts: (ok, detail)"""
+    from bibtexparser.middlewares.names import NameParts
+    cn = type(blk).__name__
+    if "comment" in desc:
+        want = "ExplicitComment" if desc["explicit"] else "ImplicitComment"
+        if cn != want or blk.comment != desc["comment"]:
+            return False, "comment block %r became %s %r" % (desc["comment"], cn, getattr(blk, "comment", None))
+        return True, ""
+    orig = desc["fields"]
+    invalid = [n for k, v in orig if k in NAME_FIELDS for n in v if nc.spec_parse(n) is None]
+    if invalid:
+        if cn != "MiddlewareErrorBlock":
+            return False, "invalid name %r did not give a MiddlewareErrorBlock but %s" % (invalid[0], cn)
+        if type(blk.error).__name__ != "InvalidNameError":
+            return False, "error is %s" % type(blk.error).__name__
+        if not any(n in str(blk.error) for n in invalid):
+            return False, "the reported error %r names none of the entry's invalid names %r" % (str(blk.error), invalid)
+        inner = blk.ignore_error_block
+        if type(inner).__name__ != "Entry" or inner.key != desc["key"] or inner.entry_type != desc["type"] or \
+                [f.key for f in inner.fields] != [k for k, _ in orig]:
+            return False, "the error block does not retain the entry (key, type, field names)"
+        first_bad = next(k for k, v in orig if k in NAME_FIELDS and any(nc.spec_parse(n) is None for n in v))
+        for (k, v0), f in zip(orig, inner.fields):
+            if (k not in NAME_FIELDS or k == first_bad) and f.value != v0:
+                return False, "field %s of the retained entry was altered: %r -> %r" % (k, v0, f.value)
+        if blk.start_line != line or blk.raw != raw:
+            return False, "start_line/raw of the error block differ from the entry's"
+        return True, ""
+    if cn != "Entry":
+        return False, "valid names %r gave %s (%s)" % ([v for k, v in orig if k in NAME_FIELDS], cn, getattr(blk, "error", ""))
+    if blk.key != desc["key"] or blk.entry_type != desc["type"] or [f.key for f in blk.fields] != [k for k, _ in orig]:
+        return False, "key, type or field names changed"
+    for (k, v0), f in zip(orig, blk.fields):
+        if k in NAME_FIELDS:
+            exp = [nc.spec_parse(n) for n in v0]
+            gotv = [nc.parts_dict(p) if isinstance(p, NameParts) else p for p in f.value] if isinstance(f.value, list) else f.value
+            if gotv != exp:
+                return False, "field %s: %r -> %r, BibTeX's rules give %r" % (k, v0, gotv, exp)
+        elif f.value != v0:
+            return False, "non-name field %s changed: %r -> %r" % (k, v0, f.value)
+    return True, ""
+
+
+def impl_lib(inp, implutil):
+    """ONE SplitNameParts instance, several blocks per library, several transform() calls (oracle only: the Coq model
+    has no middleware object whose state could be carried from one block or call to the next)."""
+    from bibtexparser.library import Library
+    from bibtexparser.model import Entry, ExplicitComment, Field, ImplicitComment
+    from bibtexparser.middlewares.names import SplitNameParts
+
+    def build(desc, line):
+        if "comment" in desc:
+            return (ExplicitComment if desc["explicit"] else ImplicitComment)(desc["comment"], line, "raw%d" % line)
+        return Entry(desc["type"], desc["key"], [Field(k, list(v) if isinstance(v, list) else v, line + i + 1)
+                                                 for i, (k, v) in enumerate(desc["fields"])], start_line=line, raw="raw%d" % line)
+    libs = inp["libs"]
+    mw = SplitNameParts(allow_inplace_modification=inp["inplace"])
+
+    def run():
+        outs = []
+        for li, blocks in enumerate(libs):
+            outs.append(mw.transform(Library([build(d, 100 * li + 10 * bi + 1) for bi, d in enumerate(blocks)])))
+        return outs
+    r = implutil.guarded(run)
+    rec = {"sx_in": None, "sx_out": None, "key": json.dumps(["lib", libs, inp["inplace"]]), "tags": ["lib"]}
+    flat = [d for blocks in libs for d in blocks]
+
+    def is_bad(d):
+        return "fields" in d and any(nc.spec_parse(n) is None for k, v in d["fields"] if k in NAME_FIELDS for n in v)
+
+    def has_names(d):
+        return "fields" in d and not is_bad(d) and any(v for k, v in d["fields"] if k in NAME_FIELDS)
+    first_bad = next((i for i, d in enumerate(flat) if is_bad(d)), None)
+    after = first_bad is not None and any(has_names(d) for d in flat[first_bad + 1:])
+    rec["nontrivial"] = after or len(flat) >= 2
+    if after:
+        rec["tags"].append("lib_valid_after_invalid")
+        if any(has_names(d) for d in [d for blocks in libs[1:] for d in blocks]) and any(is_bad(d) for d in libs[0]):
+            rec["tags"].append("lib_later_call_after_invalid")
+    if r[0] == "exc":
+        rec["oracle"] = {"ok": False, "detail": "one SplitNameParts over %d libraries raised %s (libraries: %r)" % (len(libs), r[2], libs)}
+        rec["summary"] = "raised " + r[2]
+        return rec
+    ok, detail, kinds = True, "", []
+    earlier_bad = None
+    for li, (blocks, out) in enumerate(zip(libs, r[1])):
+        if len(out.blocks) != len(blocks):
+            ok, detail = False, "library #%d: %d blocks in, %d blocks out" % (li, len(blocks), len(out.blocks))
+            break
+        for bi, (d, blk) in enumerate(zip(blocks, out.blocks)):
+            line = 100 * li + 10 * bi + 1
+            ok, detail = check_lib_block(d, blk, line, "raw%d" % line)
+            kinds.append(type(blk).__name__[0])
+            if not ok:
+                detail = "call #%d of one SplitNameParts instance, block #%d (%s): %s%s" % (
+                    li + 1, bi, d.get("key", "comment"), detail,
+                    "" if earlier_bad is None else "; an earlier block of this instance held the invalid name %r" % earlier_bad)
+                break
+            if is_bad(d) and earlier_bad is None:
+                earlier_bad = next(n for k, v in d["fields"] if k in NAME_FIELDS for n in v if nc.spec_parse(n) is None)
+        if not ok:
+            break
+        if len(out.failed_blocks) != sum(1 for d in blocks if is_bad(d)) or len(out.entries) != sum(1 for d in blocks if "fields" in d and not is_bad(d)):
+            ok, detail = False, "library #%d: failed_blocks / entries do not partition the entries by validity of their names" % li
+            break
+    rec["oracle"] = {"ok": ok, "detail": detail}
+    rec["summary"] = "".join(kinds)
     return rec
